@@ -38,7 +38,7 @@ var crashSkip = map[string]bool{
 func edgeValue(g *core.Tape, h *harness.Host, extra []rt.Value) (rt.Value, string) {
 	strs := []string{"", "a", "abc", "%", "%d", "%s%s%s", "%99999d", "%q", "[", "[^", "%b", "%f", "(", "())", "%1", ".-", "a*a*a*a*b", strings.Repeat("x", 300), "\x00", "\xff\xfe", "1e999", "0x", "-", "nan", "i8", "!17i3", "z", "s16", "<>=!", "*a", "n", "l", "L"}
 	nums := []float64{math.NaN(), math.Inf(1), math.Inf(-1), math.Copysign(0, -1), 1e308, -1e308, 0.5, 9007199254740993}
-	ints := []int64{0, 1, -1, 2, 255, 256, 65536, 1 << 31, 1 << 53, math.MaxInt64, math.MinInt64, math.MaxInt64 - 1, -2, 100, 1000000}
+	ints := []int64{0, 1, -1, 2, 255, 256, 65536, 0x10FFFF, 0x110000, 0x200000, 0x3FFFFFF, 0x4000000, 0x7FFFFFFF, 1 << 31, 1 << 53, math.MaxInt64, math.MinInt64, math.MaxInt64 - 1, -2, 100, 1000000}
 	switch g.Weighted(2, 4, 3, 5, 2, 2, 1, 1) {
 	case 0:
 		if g.Chance(1, 2) {
